@@ -92,6 +92,15 @@ impl AnyLog {
     fn root(&self) -> Option<CommitHash> {
         each!(self, l => l.tree().root())
     }
+    /// `compare` of this log's live tree with a head proof of another log.
+    fn compare(&self, proof: &sos_core::commit::CommitProof) -> String {
+        each!(self, l => match l.tree().compare(proof) {
+            Ok(sos_core::commit::Comparison::Equal) => "Equal".to_string(),
+            Ok(sos_core::commit::Comparison::Contains(i)) => format!("Contains{:?}", i),
+            Ok(sos_core::commit::Comparison::Unknown) => "Unknown".to_string(),
+            Err(e) => format!("Err({})", e),
+        })
+    }
 }
 
 trait LogT:
@@ -735,6 +744,34 @@ async fn check_backend(
                 "fresh log instance + load_tree() does not reproduce the live commit tree".into(),
                 json!({"log": log, "live_len": live.len(), "reloaded_len": reloaded.len()}),
             );
+        }
+        // C08 at the level of logs: the live log compared with the head
+        // proof of a log holding the model sequence answers Equal, with the
+        // head proof of the sequence minus its last event Contains, with
+        // the head proof of the sequence plus one more event Unknown
+        if !want_hashes.is_empty() {
+            let wt = tree_of(&want_hashes);
+            let n = want_hashes.len();
+            let mut cases: Vec<(&str, CommitTree, String)> = vec![("same_sequence", wt, "Equal".to_string())];
+            if n >= 2 {
+                cases.push(("proper_prefix", tree_of(&want_hashes[..n - 1]), format!("Contains{:?}", vec![n - 2])));
+            }
+            let mut longer = want_hashes.clone();
+            longer.push(CommitTree::hash(b"one more event"));
+            cases.push(("longer_sequence", tree_of(&longer), "Unknown".to_string()));
+            for (what, other, want) in cases {
+                if let Ok(proof) = other.head() {
+                    let got = w_logs[log].compare(&proof);
+                    if got != want {
+                        fails.push(
+                            "C08",
+                            format!("{}:log_compare:{}:got={},want={}:{}:{}", k, what, got.split(|c| c == '[' || c == '(').next().unwrap_or(""), want.split('[').next().unwrap_or(""), role, backend),
+                            "comparing a log with the head proof of another log gives the wrong relation".into(),
+                            json!({"log": log, "other": what, "got": got, "want": want}),
+                        );
+                    }
+                }
+            }
         }
         if live == want_hashes && !want_hashes.is_empty() {
             let wt = tree_of(&want_hashes);
